@@ -50,6 +50,15 @@ def onemax(x, log=None):
     return r
 
 
+def big_int(x, log=None):
+    """binary strings -> int64 values of magnitude 2**53 + (weighted count): exact as integers, NOT representable in float64 when odd"""
+    t0, d = _enter(x)
+    a = np.asarray(x).astype(np.int64)
+    r = (1 << 53) + (a * (np.arange(a.shape[1], dtype=np.int64) % 3 + 1)).sum(axis=1)
+    _leave("fit", log, t0, d, x)
+    return r
+
+
 def sphere(x, log=None):
     """real vectors -> -(sum of squares)"""
     t0, d = _enter(x)
